@@ -30,6 +30,8 @@ def cases(tier, seed):
     for name in R.catalogue_uniform(N):
         for b in ([], [2]):
             out.append({"kind": "registered", "name": name, "batch": b})
+        # two equal batch dimensions: a per-batch constant of shape (k, 1, 1, 1) mis-aligned to the last batch dimension keeps the shape
+        out.append({"kind": "registered", "name": name, "batch": [2, 2]})
     reps = ["Dense", "Diag", "Kron", "Toeplitz", "Zero", "Identity", "Root", "BlockDiag"] if tier == "quick" else list(R.catalogue_uniform(N))
     for name in reps:
         out.append({"kind": "negative", "name": name, "batch": []})
@@ -199,6 +201,16 @@ def run(case):
              needs_pd=(kind == "operator"), tol=1e4 if kind == "operator" else 500)
         if kind != "operator":
             cell("div", "first", kind, lambda: torch.div(op, other), lambda: op.div(other), lambda: torch.div(dense, other_dense) if kind == "scalar" else _refuse())
+    # per-batch constants (..., 1, 1) broadcasting over the matrix dimensions, every pattern of size-1 batch dimensions, both orders
+    if opb:
+        import itertools as _it
+        for mask in _it.product((True, False), repeat=len(opb)):
+            cshape = tuple(d if keep else 1 for d, keep in zip(opb, mask)) + (1, 1)
+            Cb = (torch.arange(int(torch.tensor(cshape).prod()), dtype=DT) * 1.5 + 2.0).view(cshape)  # distinct, non-zero members
+            tagc = "const" + "x".join(map(str, cshape))
+            cell("mul", "first", tagc, lambda Cb=Cb: torch.mul(op, Cb), lambda Cb=Cb: op.mul(Cb), lambda Cb=Cb: torch.mul(dense, Cb))
+            cell("mul", "second", tagc, lambda Cb=Cb: torch.mul(Cb, op), lambda Cb=Cb: Cb * op, lambda Cb=Cb: torch.mul(Cb, dense))
+            cell("div", "first", tagc, lambda Cb=Cb: torch.div(op, Cb), lambda Cb=Cb: op.div(Cb), lambda Cb=Cb: torch.div(dense, Cb))
     cell("add", "first", "alpha", lambda: torch.add(op, T, alpha=3.0), lambda: op.add(T, alpha=3.0), lambda: torch.add(dense, T, alpha=3.0))
     cell("sub", "first", "alpha", lambda: torch.sub(op, T, alpha=3.0), lambda: op.sub(T, alpha=3.0), lambda: torch.sub(dense, T, alpha=3.0))
     cell("div", "first", "t0", lambda: torch.div(op, torch.tensor(4.0, dtype=DT)), lambda: op.div(torch.tensor(4.0, dtype=DT)), lambda: dense / 4.0)
